@@ -16,11 +16,13 @@ RULE = (
     "documented key alone; part finite/repeat/mutate: every admissible configuration of the builder menu (incl. the documented multi-section workflow with 1-4 user-supplied or "
     "generated sections), run twice, built twice, every array reachable from the user's dictionaries copied BEFORE the first library call and "
     "compared bit-for-bit after setup/run/totals/check_partials; part interleave: ALL C(8,4)=70 interleavings of [setup, run, totals, run] "
-    "of two independent Problems for three model pairs, each problem's results compared bit-for-bit with its isolated execution; "
+    "of two independent Problems for five model pairs, each problem's results compared bit-for-bit with its isolated execution; part fresh / genfresh: every ordered pair of "
+    "configurations (resp. mesh-generator dictionaries) in a FRESH interpreter, second compared with itself alone; part keyseq: all histories of {build, add key, remove key, replace dict} up to depth 3 (T 4); "
+    "part layout: the user's mesh array Fortran-ordered / strided / read-only gives bit-identical outputs and totals; process-state oracle around every admissible configuration; "
     "non-trivial = distinct set-ups / schedules"
 )
 ASSUMPTIONS = ["finite menus of malformed variants (listed in the evidence axes)", "single-threaded BLAS, so two executions of the same code on the same data are bit-identical", "OpenMDAO/NumPy trusted"]
-BOUND = {"quick": "2 problems x 4 operations each (70 schedules) x 3 model pairs", "thorough": "adds 3 problems x 2 operations (90 schedules) and more configurations"}
+BOUND = {"quick": "2 problems x 4 operations each (70 schedules) x 5 model pairs; 8x8 generator pairs; key histories to depth 3", "thorough": "adds 3 problems x 2 operations (90 schedules) and more configurations"}
 
 PAIR_NAMES = ["aero_aero", "aero_as", "same_twice", "same_names_other_size", "left_vs_right", "as_left_vs_right", "struct_other_values", "as_other_values"]
 BOGUS = ["twist", "Mesh", "symetry", "thickness", "sweep_cp", "taper_cp", "with_viscous_drag", "CDO", "k_Lam", "E_modulus", "span_cp", "fem_model"]
